@@ -141,7 +141,9 @@ func checkChooser(c *Ctx, ch *ssa.Function) {
 		why = "no share test found; the Choice is appended under " + short(pc.String())
 		// "every codon" only if the loop runs over the table's own codon lists; a list that a helper has
 		// already thresholded is another matter
-		overOwnCodons := it != nil && !it.contains(func(x *Term) bool { return x.Op == "call" || x.Op == "phi" || x.Op == "alloc" || x.Op == "makeslice" || x.Op == "collect" })
+		overOwnCodons := it != nil && !it.contains(func(x *Term) bool {
+			return x.Op == "call" || x.Op == "phi" || x.Op == "alloc" || x.Op == "makeslice" || x.Op == "collect"
+		})
 		if pc.Op == "true" && !overOwnCodons {
 			why = "the Choice is appended for every element of a list prepared elsewhere (" + short(it.String()) + "); whether that list is thresholded is not followed"
 		} else if pc.Op == "true" {
